@@ -47,6 +47,9 @@ class HashTable:
             Number of significant digits to keep for the hash table
         '''
         self.hash_sensitivity = 10.0**int(s)
+        # Entries stored at another precision have keys on a different scale,
+        # they must not be compared with keys of the new precision
+        self.clearCache()
 
     def _hashingFunction(self, x: np.array, T: np.array):
         '''
